@@ -224,6 +224,7 @@ def gen_c09(r, tier):
         ops.append({'op': 'roundtrip', 'client': 'A', 'cs': name,
                     'path': path, 'cycles': r.randint(1, 4),
                     'tddafile': r.chance(0.6),
+                    'copy_saved_first': r.chance(0.15),
                     'disturb': r.weighted([(7, None), (1.5, 'delete'),
                                            (1.5, 'other-set')]),
                     'default_encoding': r.weighted([(8, None), (1, 'cp1252'),
@@ -1201,6 +1202,7 @@ def op_roundtrip(ctx, op):
                 'utf-8')):
             ctx.stats['faults']['shorter_content_over_longer_file'] += 1
     texts = []
+    leaked = []
     loaded = None
     try:
         T = cs_text(rec, tddafile=tf)
@@ -1227,7 +1229,15 @@ def op_roundtrip(ctx, op):
                         f.write('{"fields": {"zz": {"type": "int"}}}\n')
                 ctx.stats['faults']['file_%s_between_load_and_use'
                                     % dist.replace('-', '_')] += 1
+            if op.get('copy_saved_first'):
+                # the user first saves a copy of what was loaded under
+                # another name (to_json(tddafile=...) + their own write)
+                loaded.to_json(tddafile=ctx.W.path('data',
+                                                   'copy-elsewhere.tdda'))
+                ctx.stats['probes']['copy_saved_under_another_name'] += 1
             T2 = loaded.to_json(tddafile=tf)
+            if op.get('copy_saved_first') and 'copy-elsewhere' in T2:
+                leaked.append(T2)
             if dist:
                 with io.open(path, 'w', encoding='utf-8') as f:
                     f.write(T2)
@@ -1255,6 +1265,11 @@ def op_roundtrip(ctx, op):
                   'write/load cycle raised %r for\n%s'
                   % (exc, scrub_meta(cs_text(rec))[:1500]))
         return
+    if leaked:
+        violation(ctx, op, 'same-text', 'name-of-an-earlier-copy-leaks',
+                  'after to_json(tddafile=<copy>) the next serialisation of '
+                  'the same loaded set names the copy:\n%s'
+                  % scrub_meta(leaked[0])[:800])
     first_written = texts[0][0]
     # text properties (of what tdda serialises: every T2, and T1 when it
     # came from a DatasetConstraints object)
